@@ -85,6 +85,8 @@ def _case(draw, tier):
         "tool_level": draw(st.sampled_from(["psm", "psm", "peptide"])),
         # '#' inside text fields (SEQUEST-style M# modifications, accessions with a #n suffix): an ordinary character
         "hash": draw(st.sampled_from([False, False, True])),
+        # distinct spectra whose keys differ only in the 6th decimal of the measured mass
+        "near": draw(st.sampled_from([False, False, True])),
     }
 
 
@@ -131,7 +133,7 @@ def check(case):
     with scratch_dir() as tmp:
         psms, inputs, scores = [], [], []
         for ci, coll in enumerate(case["colls"]):
-            df, meta = datagen.psm_frame(case["seed"] + 101 * ci, coll["mults"], key_arity=case["key"], colliding_keys=bool(case.get("collide")), crossed_levels=bool(case.get("crossed")), n_noise=1,
+            df, meta = datagen.psm_frame(case["seed"] + 101 * ci, coll["mults"], key_arity=case["key"], colliding_keys=bool(case.get("collide")), crossed_levels=bool(case.get("crossed")), near_keys=bool(case.get("near")), n_noise=1,
                                          file_index=ci, with_rid=False, n_peptides=case["n_pep"],
                                          label_enc=case["label_enc"], extra_levels=case["extra"])
             if case.get("hash"):
@@ -243,6 +245,8 @@ def check(case):
         classes.append("small-conf-chunk")
     if case.get("hash"):
         classes.append("hash-character-in-text-fields")
+    if case.get("near") and case["key"] >= 2:
+        classes.append("spectrum-keys-differing-in-6th-decimal")
     nontrivial = nt_flags["winner_not_first"] and (nt_flags["peptide_multi"] or not case["rollup"])
     return {"nontrivial": nontrivial, "classes": classes, "counters": counters}
 
